@@ -45,6 +45,13 @@ func genC13(rt *rapid.T) C13Case {
 		})
 	}
 	c.Deleting = rapid.IntRange(0, 5).Draw(rt, "deleting") == 0
+	// a quarter of the reconciles that carry no other fault have the first revision delete fail
+	for i := range c.W.Ops {
+		if op := &c.W.Ops[i]; op.K == OpReconcile && op.FaultAt == 0 && op.InterAt == 0 && rapid.IntRange(0, 3).Draw(rt, "trimFault") == 0 {
+			op.FaultAt = -4
+			op.Fault = rapid.SampledFrom([]int{FServerError, FTimeoutLost, FTimeoutApplied, FNotFound}).Draw(rt, "trimFaultKind")
+		}
+	}
 	return c
 }
 
@@ -164,6 +171,26 @@ func monC13(rep Rep, v *View) (interesting bool) {
 	}
 	if len(deletes) > 0 && len(unused) <= limit {
 		rep.Violate("trim/within-limit", "revisions deleted although only %d unused own revisions exist (limit %d)%s", len(unused), limit, ctx(v))
+	}
+	// "after a successful reconcile at most revisionHistoryLimit unused revisions remain": judged on what is
+	// stored afterwards, whatever happened to individual calls - a reconcile that reports success although a
+	// delete failed has left more behind than it says
+	if v.Rec.Err == nil && !v.Rec.Crashed && v.Rec.ListedPods {
+		left := 0
+		var names []string
+		after := map[string]bool{}
+		for _, r := range v.Rec.RevsAfter {
+			after[r.Name] = true
+		}
+		for _, u := range unused {
+			if after[u.Name] {
+				left++
+				names = append(names, u.Name)
+			}
+		}
+		if left > limit {
+			rep.Violate("trim/more-than-limit-left-after-success", "the reconcile reported success but %d unused own revisions remain (%v), limit %d%s", left, names, limit, ctx(v))
+		}
 	}
 	clean := v.Rec.Err == nil && !v.Rec.Crashed
 	for _, a := range v.Rec.Actions {
